@@ -21,17 +21,14 @@
 (* carries that type's parameters as they are at that moment; a pipe        *)
 (* created from a type equals the pipe created from that type's parameters. *)
 (***************************************************************************)
-EXTENDS Integers, Sequences, FiniteSets, TLC, Json
+EXTENDS PPStd, TLC, Json
 
 CONSTANTS Names, DVals, KVals, UVals, MaxOps, EmitOn
 
 VARIABLES lib, pipes, hist, last
 vars == <<lib, pipes, hist, last>>
 
-NoVal == -1                                  \* "parameter not given" / "type has no such parameter"
 Data == [d : DVals \cup {NoVal}, k : KVals, u : UVals \cup {NoVal}]
-Row(st, d, k, u) == [std |-> st, d |-> d, k |-> k, u |-> u]
-DefaultU == 0                                \* a type without a heat-transfer coefficient gives pipes with u = 0
 
 Init == /\ lib = [n \in {"T1"} |-> [d |-> 80, k |-> 2, u |-> NoVal]]     \* one library type to start from
         /\ pipes = <<>> /\ hist = <<>> /\ last = "init"
@@ -39,20 +36,18 @@ Init == /\ lib = [n \in {"T1"} |-> [d |-> 80, k |-> 2, u |-> NoVal]]     \* one 
 Log(r) == hist' = Append(hist, r) /\ last' = r.op
 
 CreateType == \E n \in Names, dt \in Data, ow \in BOOLEAN :
-    LET ok == dt.d # NoVal /\ (ow \/ n \notin DOMAIN lib) IN
-    /\ lib' = IF ok THEN [x \in DOMAIN lib \cup {n} |-> IF x = n THEN dt ELSE lib[x]] ELSE lib
+    LET ok == TypeAdmissible(lib, n, dt, ow) IN
+    /\ lib' = IF ok THEN WithType(lib, n, dt) ELSE lib
     /\ pipes' = pipes
     /\ Log([op |-> "create_std_type", name |-> n, data |-> dt, overwrite |-> ow, ok |-> ok])
 DeleteType == \E n \in Names :
     LET ok == n \in DOMAIN lib IN
-    /\ lib' = IF ok THEN [x \in DOMAIN lib \ {n} |-> lib[x]] ELSE lib
+    /\ lib' = IF ok THEN WithoutType(lib, n) ELSE lib
     /\ pipes' = pipes
     /\ Log([op |-> "delete_std_type", name |-> n, ok |-> ok])
-FromType(n, ko, uo) == Row(n, lib[n].d, IF ko # NoVal THEN ko ELSE lib[n].k,
-                           IF uo # NoVal THEN uo ELSE IF lib[n].u # NoVal THEN lib[n].u ELSE DefaultU)
 CreatePipe == \E n \in Names, ko \in KVals \cup {NoVal}, uo \in UVals \cup {NoVal} :
     LET ok == n \in DOMAIN lib IN
-    /\ pipes' = IF ok THEN Append(pipes, FromType(n, ko, uo)) ELSE pipes
+    /\ pipes' = IF ok THEN Append(pipes, FromType(lib, n, ko, uo)) ELSE pipes
     /\ lib' = lib
     /\ Log([op |-> "create_pipe", name |-> n, k |-> ko, u |-> uo, ok |-> ok])
 CreateFromParams == \E d \in DVals, k \in KVals, u \in UVals :
@@ -60,9 +55,7 @@ CreateFromParams == \E d \in DVals, k \in KVals, u \in UVals :
     /\ Log([op |-> "create_pipe_from_parameters", d |-> d, k |-> k, u |-> u, ok |-> TRUE])
 ChangeType == \E i \in DOMAIN pipes, n \in Names :
     LET ok == n \in DOMAIN lib
-        r == pipes[i]
-        nr == [std |-> n, d |-> lib[n].d, k |-> lib[n].k, u |-> IF lib[n].u # NoVal THEN lib[n].u ELSE r.u]
-    IN /\ pipes' = IF ok THEN [pipes EXCEPT ![i] = nr] ELSE pipes
+    IN /\ pipes' = IF ok THEN [pipes EXCEPT ![i] = Retyped(lib, pipes[i], n)] ELSE pipes
        /\ lib' = lib
        /\ Log([op |-> "change_std_type", row |-> i, name |-> n, ok |-> ok])
 
@@ -78,9 +71,9 @@ RowsStable == [][\A i \in DOMAIN pipes : (last' # "change_std_type" \/ hist'[Len
 (* every typed row names an existing type or a type that was deleted / overwritten later - never parameters out of nowhere: *)
 (* right after a typed creation without overrides the row equals the library entry                                          *)
 InvFresh == (last = "create_pipe" /\ hist[Len(hist)].ok /\ hist[Len(hist)].k = NoVal /\ hist[Len(hist)].u = NoVal) =>
-    LET r == pipes[Len(pipes)]  t == lib[r.std] IN r.d = t.d /\ r.k = t.k /\ r.u = (IF t.u # NoVal THEN t.u ELSE DefaultU)
+    LET r == pipes[Len(pipes)]  t == lib[r.std] IN r.d = t.d /\ r.k = t.k /\ r.u = t.u
 (* a pipe from a type equals the pipe from that type's parameters (apart from the type name) *)
 InvTypeEqualsParams == \A n \in DOMAIN lib :
-    LET r == FromType(n, NoVal, NoVal) IN [r EXCEPT !.std = ""] = Row("", lib[n].d, lib[n].k, IF lib[n].u # NoVal THEN lib[n].u ELSE DefaultU)
+    LET r == FromType(lib, n, NoVal, NoVal) IN [r EXCEPT !.std = ""] = Row("", lib[n].d, lib[n].k, lib[n].u)
 Emit == EmitOn => PrintT(ToJson([vp |-> "STD", hist |-> hist]))
 =============================================================================
